@@ -630,6 +630,11 @@ def coerce(interp, v, shape):
         return VInt(as_int(v))
     if isinstance(v, VOpt):
         raise Unsupported(f"optional value {v!r} stored into non-optional slot {shape!r}")
+    want = {"str": VStr, "bytes": VStr, "int": VInt, "bool": VBool, "float": VFloat}.get(shape) if isinstance(shape, str) else None
+    if want is not None and (not isinstance(v, want) or (want is VStr and v.kind != shape) or (want is VInt and isinstance(v, VBool))):
+        # the container is modelled with one element type; a value of another type is outside the model (never a
+        # solver-level sort error)
+        raise Unsupported(f"value {v!r} stored into a container modelled with elements of type {shape!r}")
     return v
 
 
@@ -657,10 +662,17 @@ def list_append(interp, lst, v):
     lst.length = lst.length + 1
 
 
+def _qrange(k, new):
+    """bounds of a list-axiom quantifier (for the bounded refuter)"""
+    from .symex import QRANGES
+    QRANGES[k.decl().name()] = (z3.IntVal(0), new.length)
+
+
 def list_delete_at(interp, lst, i):
     """remove element i: result defined through a fresh list + quantified axiom"""
     new = fresh_list(interp, lst.shape, "del")
     k = z3.Int(interp.ctx.fresh_name("k_del"))
+    _qrange(k, new)
     conj = []
     for a, b in zip(lst.arrs, new.arrs):
         conj.append(z3.Select(b, k) == z3.If(k < i, z3.Select(a, k), z3.Select(a, k + 1)))
@@ -674,6 +686,7 @@ def list_slice(interp, lst, lo, hi):
     e = z3.If(e < s, s, e)
     new = fresh_list(interp, lst.shape, "slice")
     k = z3.Int(interp.ctx.fresh_name("k_sl"))
+    _qrange(k, new)
     conj = [z3.Select(b, k) == z3.Select(a, k + s) for a, b in zip(lst.arrs, new.arrs)]
     interp.ctx.assume(new.length == e - s, "list-slice:len")
     interp.ctx.assume(z3.ForAll([k], z3.Implies(z3.And(k >= 0, k < new.length), z3.And(conj + [T()]))), "list-slice:elems")
@@ -688,6 +701,7 @@ def list_concat(interp, a, b):
         b = to_symbolic(interp, b, shape)
     new = fresh_list(interp, shape, "cat")
     k = z3.Int(interp.ctx.fresh_name("k_cat"))
+    _qrange(k, new)
     conj = [z3.Select(n, k) == z3.If(k < a.length, z3.Select(x, k), z3.Select(y, k - a.length))
             for x, y, n in zip(a.arrs, b.arrs, new.arrs)]
     interp.ctx.assume(new.length == a.length + b.length, "list-cat:len")
@@ -714,6 +728,7 @@ def list_set_slice(interp, lst, lo, hi, v, node):
         raise Unsupported(f"slice assignment from {v!r}")
     new = fresh_list(interp, lst.shape, "setsl")
     k = z3.Int(interp.ctx.fresh_name("k_ss"))
+    _qrange(k, new)
     conj = []
     for a, b, n in zip(lst.arrs, v.arrs, new.arrs):
         conj.append(z3.Select(n, k) == z3.If(k < s, z3.Select(a, k),
